@@ -86,7 +86,11 @@ def run_decompose(shape):
             fg = make_fullgrid(F, TR, Vm, 1, o, r.copy(), 2)
             fg.b_rotations = BRot(n_b, sarr([[SR(x) for x in row] for row in Q]), None)
             arr = fg.get_full_grid_as_array()
-            return F.from_full_array_to_o_b_t(arr)
+            before = arr.copy()
+            first = F.from_full_array_to_o_b_t(arr)
+            untouched = arr.shape == before.shape and all((a is b) or (not isinstance(a, SR) and not isinstance(b, SR) and a == b) for a, b in zip(arr.reshape(-1), before.reshape(-1)))
+            second = F.from_full_array_to_o_b_t(arr)        # decomposing the same array again gives the same grids
+            return first + (untouched, second)
 
     for path in eng.explore(body):
         acc.begin(prover, path)
@@ -95,8 +99,13 @@ def run_decompose(shape):
             continue
         if acc.reachable is not True:
             acc.reach(prover.satisfiable(path.premises))
-        uo, ub, ut = path.value
+        uo, ub, ut, untouched, second = path.value
         m = _model(path)
+        acc.structural("input_array_untouched_by_decomposition", bool(untouched), detail="from_full_array_to_o_b_t modified the array it was given", cex={"model": m})
+        so, sb_, st_ = second
+        same2 = np.shape(so) == np.shape(uo) and np.shape(st_) == np.shape(ut) and np.shape(sb_) == np.shape(ub) and \
+            np.allclose(np.asarray(so, dtype=float), np.asarray(uo, dtype=float), atol=1e-9) and np.allclose(np.asarray(st_, dtype=float), np.asarray(ut, dtype=float), atol=2e-8)
+        acc.structural("second_decomposition_of_same_array_agrees", bool(same2), detail=(str(np.shape(so)), str(np.asarray(st_, dtype=float).tolist())[:80]), cex={"model": m})
         ok_o = tuple(np.shape(uo)) == (n_o, 3) and np.allclose(np.asarray(uo, dtype=float), O, atol=1e-9)
         acc.structural("directions_recovered_in_order", ok_o, detail=str(np.shape(uo)), cex={"model": m})
         ok_t = tuple(np.shape(ut)) == (n_t,) and np.allclose(np.asarray(ut, dtype=float), r, atol=2e-8)
@@ -142,7 +151,9 @@ def run_shape(shape):
             o = DirStub(n_o, [], [1.0] * n_o, {}, {}, sp, lambda l: sarr(l), coords=sarr([[SR(x) for x in row] for row in O]))
             fg = make_fullgrid(F, TR, Vm, 1, o, sarr([SR(x) for x in r]), 2)
             fg.b_rotations = BRot(n_b, sarr([[SR(x) for x in row] for row in Q]), None)
-            arr = fg.get_full_grid_as_array()
+            scratch = fg.get_full_grid_as_array()
+            scratch[...] = 0                      # a caller is free to edit the array it got (unit conversion, shuffling ...)
+            arr = fg.get_full_grid_as_array()     # ... and a later call must still describe the grid
             pos = fg.position_grid.get_position_grid_as_array()
             helpers = []
             for ix in idx_sets:
@@ -213,10 +224,17 @@ def replay_decompose(cex):
     fg = make_fullgrid(F, TR, Vm, 1, o, r.copy(), 2)
     fg.b_rotations = BRot(n_b, Q, None)
     try:
-        uo, ub, ut = F.from_full_array_to_o_b_t(fg.get_full_grid_as_array())
+        arr = fg.get_full_grid_as_array()
+        before = arr.copy()
+        uo, ub, ut = F.from_full_array_to_o_b_t(arr)
+        so, sb_, st_ = F.from_full_array_to_o_b_t(arr)
     except Exception as e:  # noqa: BLE001
         return {"reproduced": True, "detail": f"raised {e!r}"}
     bad = []
+    if not np.array_equal(arr, before):
+        bad.append("decomposition modified the array it was given")
+    if np.shape(st_) != np.shape(ut) or not np.allclose(st_, ut) or np.shape(so) != np.shape(uo) or not np.allclose(so, uo):
+        bad.append(f"second decomposition of the same array differs: radii {np.asarray(st_).tolist()} vs {np.asarray(ut).tolist()}")
     if np.shape(uo) != (n_o, 3) or not np.allclose(uo, O, atol=1e-9):
         bad.append(f"directions {np.shape(uo)}")
     if np.shape(ut) != (n_t,) or not np.allclose(ut, r, atol=2e-8):
@@ -246,6 +264,8 @@ def replay(cex):
     N = n_b * n_o * n_t
     bad = []
     try:
+        scratch = fg.get_full_grid_as_array()
+        scratch[...] = 0
         arr = fg.get_full_grid_as_array()
         tp, tq = fg.get_position_index(), fg.get_quaternion_index()
     except Exception as e:  # noqa: BLE001
